@@ -16,16 +16,30 @@ def _name(n, default):
     return n if isinstance(n, str) and re.fullmatch(r"[_A-Za-z][_0-9A-Za-z]*", n) and not n.startswith("__") else default
 
 
-SCALAR = V.REG.register(G.GraphQLScalarType, ["name"], build=lambda name=None: BUILTIN.get(name) or G.GraphQLScalarType(_name(name, "Custom")))
-ENUM = V.REG.register(G.GraphQLEnumType, ["name"], build=lambda name=None: G.GraphQLEnumType(_name(name, "E"), {"A": None, "B": None}))
-INPUT = V.REG.register(G.GraphQLInputObjectType, ["name"],
-                       build=lambda name=None: G.GraphQLInputObjectType(_name(name, "In"), {"x": G.GraphQLInputField(G.GraphQLInt)}))
-OBJECT = V.REG.register(G.GraphQLObjectType, ["name"],
-                        build=lambda name=None: G.GraphQLObjectType(_name(name, "Obj"), {"x": G.GraphQLField(G.GraphQLInt)}))
-INTERFACE = V.REG.register(G.GraphQLInterfaceType, ["name"],
-                           build=lambda name=None: G.GraphQLInterfaceType(_name(name, "Iface"), {"x": G.GraphQLField(G.GraphQLInt)}))
-UNION = V.REG.register(G.GraphQLUnionType, ["name", "types"],
-                       build=lambda name=None, types=None: G.GraphQLUnionType(_name(name, "U"), list(types or [])))
+def _descr(d):
+    return d if isinstance(d, str) else None
+
+
+SCALAR = V.REG.register(G.GraphQLScalarType, ["name", "description", "specified_by_url"],
+                        build=lambda name=None, description=None, specified_by_url=None:
+                        BUILTIN.get(name) or G.GraphQLScalarType(_name(name, "Custom"), description=_descr(description), specified_by_url=_descr(specified_by_url)))
+ENUM = V.REG.register(G.GraphQLEnumType, ["name", "description", "values"],
+                      build=lambda name=None, description=None, values=None:
+                      G.GraphQLEnumType(_name(name, "E"), values if isinstance(values, dict) and values and all(isinstance(v, G.GraphQLEnumValue) for v in values.values()) else {"A": None, "B": None}, description=_descr(description)))
+INPUT = V.REG.register(G.GraphQLInputObjectType, ["name", "description", "fields"],
+                       build=lambda name=None, description=None, fields=None:
+                       G.GraphQLInputObjectType(_name(name, "In"), fields if isinstance(fields, dict) and fields and all(isinstance(v, G.GraphQLInputField) for v in fields.values()) else {"x": G.GraphQLInputField(G.GraphQLInt)}, description=_descr(description)))
+OBJECT = V.REG.register(G.GraphQLObjectType, ["name", "description", "interfaces", "fields"],
+                        build=lambda name=None, description=None, interfaces=None, fields=None:
+                        G.GraphQLObjectType(_name(name, "Obj"), fields if isinstance(fields, dict) and fields and all(isinstance(v, G.GraphQLField) for v in fields.values()) else {"x": G.GraphQLField(G.GraphQLInt)},
+                                            interfaces=[i for i in (interfaces or []) if isinstance(i, G.GraphQLInterfaceType)], description=_descr(description)))
+INTERFACE = V.REG.register(G.GraphQLInterfaceType, ["name", "description", "interfaces", "fields"],
+                           build=lambda name=None, description=None, interfaces=None, fields=None:
+                           G.GraphQLInterfaceType(_name(name, "Iface"), fields if isinstance(fields, dict) and fields and all(isinstance(v, G.GraphQLField) for v in fields.values()) else {"x": G.GraphQLField(G.GraphQLInt)},
+                                                  interfaces=[i for i in (interfaces or []) if isinstance(i, G.GraphQLInterfaceType)], description=_descr(description)))
+UNION = V.REG.register(G.GraphQLUnionType, ["name", "description", "types"],
+                       build=lambda name=None, description=None, types=None:
+                       G.GraphQLUnionType(_name(name, "U"), [t for t in (types or []) if isinstance(t, G.GraphQLObjectType)] or [G.GraphQLObjectType("Member", {"x": G.GraphQLField(G.GraphQLInt)})], description=_descr(description)))
 LIST = V.REG.register(G.GraphQLList, ["of_type"], build=lambda of_type=None: G.GraphQLList(of_type))
 NONNULL = V.REG.register(G.GraphQLNonNull, ["of_type"], build=lambda of_type=None: G.GraphQLNonNull(of_type))
 
